@@ -312,7 +312,12 @@ impl Report {
     pub fn finish(mut self) -> ! {
         let wall = crate::clock::wall() - self.start_wall;
         if self.samples.is_empty() {
-            machinery("no samples recorded");
+            if self.new_violations + self.known_hits > 0 {
+                // the search stopped at its first violating level before any sample was taken
+                self.samples.push(json!({"note": "search stopped at the first violation; see the replay file"}));
+            } else {
+                machinery("no samples recorded");
+            }
         }
         self.coverage
             .insert("samples".into(), Value::Array(self.samples.clone()));
